@@ -22,6 +22,7 @@ def _init_worker(consts, init, caching, vertex_cls_name, cache_mode=None):
     _G["cache_mode"] = cache_mode
     from edgegraph.structure import Vertex
     from . import probes as P
+    from . import render_exec  # noqa: F401  (registers the mixed vertex-class pool)
     Vertex.NEIGHBOR_CACHING = caching
     _G["consts"], _G["init"] = consts, init
     _G["vcls"] = P.VERTEX_CLASSES[vertex_cls_name or "Vertex"]
@@ -35,7 +36,14 @@ def _run_task(task):
         for pc in path:
             w.apply(pc)
         S = w.project()
-        pr = P.run(w, S, probe_spec)
+        if probe_spec.get("engine") == "render":
+            from . import render_exec as RX
+            pr = RX.run(w, S, probe_spec)
+        elif probe_spec.get("engine") == "readonly":
+            from . import readonly_exec as RO
+            pr = RO.run(w, S, probe_spec)
+        else:
+            pr = P.run(w, S, probe_spec)
         after = w.project()
         return ("probe", S, pr, after)
     out = []
